@@ -2,6 +2,7 @@ package main
 
 import (
 	"fmt"
+	"go/token"
 	"go/types"
 	"strings"
 
@@ -403,4 +404,146 @@ func phiInitOf(fn *ssa.Function, name string) string {
 		}
 	}
 	return ""
+}
+
+// immutableField: is the field (of a struct type the repository declares) never
+// written outside constructor context (the object allocated in the writing
+// function)? Configuration structs filled by the YAML decoder count as
+// immutable: nothing in the repository writes them afterwards.
+func (p *Program) immutableField(t types.Type, idx int) bool {
+	n, ok := sfNamedStruct(t)
+	if !ok {
+		return false
+	}
+	fv := fieldVar(t, idx)
+	if fv == nil {
+		return false
+	}
+	if p.mutFields == nil {
+		p.mutFields = map[string]bool{}
+		for _, fn := range p.RepoFuncs() {
+			for _, b := range fn.Blocks {
+				for _, in := range b.Instrs {
+					fa, ok := in.(*ssa.FieldAddr)
+					if !ok {
+						continue
+					}
+					nn, ok := sfNamedStruct(fa.X.Type())
+					if !ok {
+						continue
+					}
+					f := fieldVar(fa.X.Type(), fa.Field)
+					if f == nil || sfFresh(fa.X, 0) || !sfIsWrite(fa, 0) {
+						continue
+					}
+					p.mutFields[nn.Obj().Pkg().Path()+"."+nn.Obj().Name()+"."+f.Name()] = true
+				}
+			}
+		}
+	}
+	return !p.mutFields[n.Obj().Pkg().Path()+"."+n.Obj().Name()+"."+fv.Name()]
+}
+
+// freeAlias: "*free:<p>.<immutable field path>" for a captured variable whose
+// only assignment in the parent is a read of that path from the parent's
+// parameter p, which the closure captures too; "" otherwise.
+func freeAlias(p *Program, cl *ssa.Function, fv *ssa.FreeVar) string {
+	parent := cl.Parent()
+	if parent == nil {
+		return ""
+	}
+	key := cl.String() + "#" + fv.Name()
+	if p.aliasCache == nil {
+		p.aliasCache = map[string]string{}
+	}
+	if v, ok := p.aliasCache[key]; ok {
+		return v
+	}
+	res := ""
+	defer func() { p.aliasCache[key] = res }()
+	// never assigned in the closure (or its siblings: the binding has one store)
+	vals := closureFreeInit(parent, cl, fv.Name())
+	if len(vals) != 1 {
+		return ""
+	}
+	if rs := fv.Referrers(); rs != nil {
+		for _, r := range *rs {
+			if st, ok := r.(*ssa.Store); ok && st.Addr == ssa.Value(fv) {
+				return ""
+			}
+		}
+	}
+	// the value: loads of immutable fields down from a parameter of the parent
+	path := ""
+	v := vals[0]
+	var root *ssa.Parameter
+	for d := 0; d < 8 && root == nil; d++ {
+		switch x := v.(type) {
+		case *ssa.UnOp:
+			if x.Op != token.MUL {
+				return ""
+			}
+			v = x.X
+		case *ssa.FieldAddr:
+			if !p.immutableField(x.X.Type(), x.Field) {
+				return ""
+			}
+			path = "." + fieldName(x.X.Type(), x.Field) + path
+			v = x.X
+		case *ssa.Field:
+			if !p.immutableField(x.X.Type(), x.Field) {
+				return ""
+			}
+			path = "." + fieldName(x.X.Type(), x.Field) + path
+			v = x.X
+		case *ssa.Alloc:
+			// a spilled parameter
+			var prm *ssa.Parameter
+			n := 0
+			if rs := x.Referrers(); rs != nil {
+				for _, r := range *rs {
+					if st, ok := r.(*ssa.Store); ok && st.Addr == ssa.Value(x) {
+						n++
+						prm, _ = st.Val.(*ssa.Parameter)
+					}
+				}
+			}
+			if n != 1 || prm == nil {
+				return ""
+			}
+			root = prm
+		case *ssa.Parameter:
+			root = x
+		default:
+			return ""
+		}
+	}
+	if root == nil || path == "" {
+		return ""
+	}
+	// the closure must capture that parameter as well
+	for _, ofv := range cl.FreeVars {
+		for _, iv := range closureFreeInit(parent, cl, ofv.Name()) {
+			if iv == ssa.Value(root) {
+				res = "*free:" + ofv.Name() + path
+				return res
+			}
+		}
+	}
+	return ""
+}
+
+// freeCanon: how the walker names a read of the closure's captured variable.
+func freeCanon(p *Program, cl *ssa.Function, name string) string {
+	if cl == nil || name == "" {
+		return ""
+	}
+	for _, fv := range cl.FreeVars {
+		if fv.Name() == name {
+			if al := freeAlias(p, cl, fv); al != "" {
+				return al
+			}
+		}
+	}
+	return "*free:" + name
 }
